@@ -289,7 +289,8 @@ PROPS["C04"] = dict(
             corr_stage("C04T", 2, 6, feature=lambda tok: tok[2] if (tok[0] == "K2" and "-p" in tok[2]) else None, instrument=True, shards=12,
                        params={"points": 12}, tparams={"points": 1000}, timeout=1200),
             corr_stage("C04HUGE", 8, 40, validate=False),
-            corr_stage("C04GOEXIT", 60, 600, validate=False)],
+            corr_stage("C04GOEXIT", 60, 600, validate=False),
+            corr_stage("C04LAG", 40, 400, validate=False)],
 )
 def c05_trace_params(exe):
     """ids of the six synchronisation points of WaitCond (sync.go), found by WHAT THEY DO in the instrumenter's table (not by
